@@ -14,7 +14,7 @@ ALT="$VERIF_DIR/.build/alt-$(echo "$SCR" | md5sum | cut -c1-10)"
 cleanup() { git -C /repo worktree remove --force "$SCR" 2>/dev/null; rm -rf "$SCR" "$ALT"; git -C /repo worktree prune; }
 trap cleanup EXIT
 : > "$LOG"
-suite() { (cd "$SCR" && CARGO_NET_OFFLINE=true cargo test --workspace --no-fail-fast --offline 2>&1 | grep -E '^test result' | head -3 | awk '{print $4"/"$6}' | tr '\n' ' '); }
+suite() { (cd "$SCR" && CARGO_NET_OFFLINE=true timeout 900 cargo test --workspace --no-fail-fast --offline 2>&1 | grep -E '^test result' | head -3 | awk '{print $4"/"$6}' | tr '\n' ' '); }
 runchecks() {
   OUT=""
   for c in "$@"; do
